@@ -282,6 +282,23 @@ pub fn world_b_handshake(property: &str, scenario: &str, seed: u64, run: u64, th
             plan.params.insert(format!("expect_error_ep{}", topo.clients[i]), *k as f64);
         }
     }
+    // "effectively unlimited" settings: the handshake fields are 32 bits wide and saturate
+    for (i, e) in plan.endpoints.iter_mut().enumerate() {
+        let compatible = i == 0 || !topo.clients.iter().position(|c| *c == i).map_or(false, |k| expect[k].is_some());
+        if let (true, EndpointKind::Client { cfg, .. } | EndpointKind::Server { cfg, .. }) = (compatible, &mut e.kind) {
+            const HUGE: [u64; 5] = [u32::MAX as u64, 1 << 32, (1 << 32) + 4096, (1 << 32) + 40_000_000, 1 << 40];
+            // (the server's receive allocation is what the incompatible clients were built against)
+            if i != 0 && r.chance(0.15) {
+                cfg.max_receive_alloc = *r.pick(&HUGE);
+            }
+            if r.chance(0.1) {
+                cfg.max_send_rate = *r.pick(&HUGE);
+            }
+            if r.chance(0.1) {
+                cfg.max_receive_rate = *r.pick(&HUGE);
+            }
+        }
+    }
     if r.chance(0.3) {
         for e in plan.endpoints.iter_mut() {
             let n = 0u32.wrapping_sub(r.range(0, 6000) as u32);
@@ -563,6 +580,16 @@ pub fn world_b_lifecycle(property: &str, scenario: &str, seed: u64, run: u64, th
                     }
                 }
             }
+            // stale copies of a refusal echoing the client's own SYN nonce (first incarnation:
+            // its nonce is steered), at any point of its life including after the connection ended
+            if inc == 0 && r.chance(0.4) {
+                let nonce = 0x5EED_0000u32.wrapping_add(c as u32 * 7919).wrapping_add(run as u32);
+                plan.endpoints[c].nonces = vec![nonce];
+                for _ in 0..r.range(1, 4) {
+                    let t = r.range(t_create + 1_000_000, life_end.max(t_create + 1_000_001));
+                    plan.push(t, 0x8000_0002, Op::Inject { to: c, from: 0, bytes: enc_hs_err(nonce, r.below(3) as u8), twin: false });
+                }
+            }
             // stray handshake frames from the client's own address (duplicates, other nonces,
             // foreign protocol versions) at any point of the connection's life
             for _ in 0..r.range(0, 4) {
@@ -635,7 +662,7 @@ pub fn world_b_limits(property: &str, scenario: &str, seed: u64, run: u64, thoro
         let cad = Cadence { period_us: r.range(5_000, 50_000), jitter: 0.3, stall_p: 0.0, stall_max_us: 0, flush_after_step_p: 0.0 };
         // how the connection ends
         let t_end = (t_create + r.range(3_000_000, horizon / 3)).min(horizon);
-        let ending = r.below(10);
+        let ending = r.below(11);
         if ending != 7 {
             plan.params.insert(format!("created_ep{}", c), 1.0);
         }
@@ -649,6 +676,15 @@ pub fn world_b_limits(property: &str, scenario: &str, seed: u64, run: u64, thoro
                 plan.push(ts, r.u32() | 1, if r.chance(0.5) { Op::Disconnect { ep: 0, to: Some(c) } } else { Op::DisconnectNow { ep: 0, to: Some(c) } });
                 plan.push(tc, r.u32() | 1, if r.chance(0.5) { Op::Disconnect { ep: c, to: None } } else { Op::DisconnectNow { ep: c, to: None } });
                 horizon
+            }
+            10 => {
+                // the client vanishes; the server application, unaware, queues reliable data and
+                // asks for a graceful disconnect: only the silence timeout can end this
+                plan.push(t_end, 1, Op::Destroy { ep: c });
+                let t = t_end + r.below(500_000);
+                plan.push(t, 0x4000_0000 + c as u32, Op::Send { ep: 0, to: Some(c), ch: 0, mode: MODE_RELIABLE, len: r.range(12, 3000) as u32, tag: 900_000 + c as u32 });
+                plan.push(t + 1, r.u32() | 1, Op::Disconnect { ep: 0, to: Some(c) });
+                t_end
             }
             9 => {
                 // the client disconnects, is replaced by a new client object on the same address
@@ -772,7 +808,7 @@ pub fn world_b_spoof(property: &str, scenario: &str, seed: u64, run: u64, thorou
                         2 => enc_disc_ack(),
                         3 => enc_ack(r.u32(), r.u32() & 0xFFFFF, &[]),
                         4 => enc_sync(None, None),
-                        5 => enc_syn(3, 0x1234_5678 + k as u32, 2_000_000, 1000, 1_000_000, 5 + r.below(40) as usize),
+                        5 => enc_syn(if r.chance(0.5) { 3 } else { 4 }, 0x1234_5678 + k as u32, 2_000_000, 1000, 1_000_000, 5 + r.below(40) as usize),
                         _ => enc_data(r.u32(), false, &[]),
                     }
                 };
@@ -787,7 +823,7 @@ pub fn world_b_spoof(property: &str, scenario: &str, seed: u64, run: u64, thorou
                 // valid full-size SYN, repeated with the same or a fresh nonce
                 0 | 1 => enc_syn(3, if r.chance(0.5) { 0x1234_5678 + k as u32 } else { r.u32() }, 2_000_000, 1000, 1_000_000, 1472),
                 // undersized SYNs (CRC-valid)
-                2 | 3 => enc_syn(3, r.u32(), 2_000_000, 1000, 1_000_000, (sweep_base + (j as usize * 97)) % 1467 + 5),
+                2 | 3 => enc_syn(if r.chance(0.7) { 3 } else { *r.pick(&[0u8, 2, 4, 200]) }, r.u32(), 2_000_000, 1000, 1_000_000, (sweep_base + (j as usize * 97)) % 1467 + 5),
                 // wrong version / refused configuration
                 4 => enc_syn(*r.pick(&[0u8, 2, 4, 200]), r.u32(), 2_000_000, 1000, 1_000_000, 1472),
                 5 => enc_syn(3, r.u32(), 2_000_000, 2_000_000_000, 10, 1472),
@@ -874,7 +910,45 @@ pub fn world_b_spoof_long(property: &str, scenario: &str, seed: u64, run: u64, _
 
 /// C09: queue data, then disconnect() / disconnect_now() from either side, with faults on
 /// everything and (often) a total blackout right after the call.
+/// C09, reachable peer: a clean link on which only disconnect acknowledgements are lost for a few
+/// seconds; the call may come within two seconds of the connection's SYN. The retries must end
+/// in Disconnect on both sides.
+fn world_b_disconnect_reachable(property: &str, scenario: &str, seed: u64, run: u64) -> Plan {
+    let mut r = Rng::keyed(&[seed, crate::rng::str_key(property), crate::rng::str_key(scenario), run, 0xea51]);
+    let mut plan = Plan::new(property, scenario, seed, run);
+    plan.fate_seed = Some(key(&[seed, run, 0xfa7e]));
+    let mut cfg = EndpointCfg::default();
+    cfg.active_timeout_ms = 60_000;
+    let cc = cfg.clone();
+    let topo = topology(&mut plan, &mut r, 1, 0, cfg, 64, 32, move |_, _| cc.clone());
+    let c = topo.clients[0];
+    let latency = r.range(100, 40_000);
+    plan.push(0, 0, Op::Create { ep: 0 });
+    plan.push(0, 2, Op::Link { from: None, to: None, rule: clean_rule(latency) });
+    let t_create = r.below(100_000);
+    plan.push(t_create, 1, Op::Create { ep: c });
+    let t_call = t_create + *r.pick(&[300_000u64, 800_000, 1_500_000, 1_900_000, 2_500_000, 6_000_000]);
+    let caller_is_client = r.chance(0.6);
+    let (caller, caller_to) = if caller_is_client { (c, None) } else { (0usize, Some(c)) };
+    plan.push(t_call, 0x6000_0000, if r.chance(0.5) { Op::Disconnect { ep: caller, to: caller_to } } else { Op::DisconnectNow { ep: caller, to: caller_to } });
+    let mut lossy = clean_rule(latency);
+    lossy.drop_types = 1 << crate::world::FRAME_DISC_ACK;
+    lossy.drop_types_p = 1.0;
+    plan.push(t_call.saturating_sub(1000), 2, Op::Link { from: None, to: None, rule: lossy });
+    plan.push(t_call + r.range(1_000_000, 9_000_000), 2, Op::Link { from: None, to: None, rule: clean_rule(latency) });
+    let horizon = t_call + 60_000_000;
+    plan.push(r.below(20_000), r.u32() | 1, Op::StepEvery { ep: c, period_us: r.range(5_000, 100_000), until_us: horizon });
+    plan.push(r.below(20_000), r.u32() | 1, Op::StepEvery { ep: 0, period_us: r.range(5_000, 100_000), until_us: horizon });
+    plan.params.insert("peer_stays_reachable".into(), 1.0);
+    plan.end_us = horizon;
+    plan.sort();
+    plan
+}
+
 pub fn world_b_disconnect(property: &str, scenario: &str, seed: u64, run: u64, thorough: bool) -> Plan {
+    if run % 7 == 3 {
+        return world_b_disconnect_reachable(property, scenario, seed, run);
+    }
     let mut r = Rng::keyed(&[seed, crate::rng::str_key(property), crate::rng::str_key(scenario), run]);
     let mut plan = Plan::new(property, scenario, seed, run);
     plan.fate_seed = Some(key(&[seed, run, 0xfa7e]));
@@ -1110,7 +1184,7 @@ pub fn world_b_retry(property: &str, scenario: &str, seed: u64, run: u64, _thoro
     let mut cfg = EndpointCfg::default();
     cfg.active_timeout_ms = 60_000;
     let cc = cfg.clone();
-    let topo = topology(&mut plan, &mut r, 1, 0, cfg, 64, 32, move |_, _| cc.clone());
+    let topo = topology(&mut plan, &mut r, 2, 0, cfg, 64, 32, move |_, _| cc.clone());
     let c = topo.clients[0];
     let latency = r.range(100, 50_000);
     plan.push(0, 2, Op::Link { from: None, to: None, rule: clean_rule(latency) });
@@ -1118,6 +1192,16 @@ pub fn world_b_retry(property: &str, scenario: &str, seed: u64, run: u64, _thoro
     let period_s = *r.pick(&[1_000u64, 10_000, 50_000, 200_000]);
     let horizon = 80_000_000;
     plan.params.insert("check_retry_budgets".into(), 1.0);
+    // another client of the same server has just closed its connection (the server keeps the
+    // closed entry for 20 s): its timers must not get in the way of this client's
+    let other = topo.clients[1];
+    let with_other = run % 3 != 0 && r.chance(0.5);
+    let shift = if with_other { 3_000_000 } else { 0 };
+    if with_other {
+        plan.push(500, 1, Op::Create { ep: other });
+        plan.push(600, 3, Op::StepEvery { ep: other, period_us: 20_000, until_us: horizon });
+        plan.push(r.range(1_500_000, 2_500_000), 0x6000_0002, Op::DisconnectNow { ep: other, to: None });
+    }
     match run % 3 {
         0 => {
             // nobody answers: the server does not exist, or nothing gets through
@@ -1138,14 +1222,14 @@ pub fn world_b_retry(property: &str, scenario: &str, seed: u64, run: u64, _thoro
             b.blackout = true;
             plan.push(0, 3, Op::Link { from: Some(0), to: Some(c), rule: b });
             plan.push(100, 3, Op::StepEvery { ep: 0, period_us: period_s, until_us: horizon });
-            plan.push(r.below(1_000_000), 1, Op::Create { ep: c });
+            plan.push(shift + r.below(1_000_000), 1, Op::Create { ep: c });
             plan.params.insert(format!("unanswered_ep{}", c), 1.0);
         }
         _ => {
             // established, then blackout, then disconnect into the void
             plan.push(0, 0, Op::Create { ep: 0 });
             plan.push(100, 3, Op::StepEvery { ep: 0, period_us: period_s, until_us: horizon });
-            plan.push(1000, 1, Op::Create { ep: c });
+            plan.push(shift + 1000, 1, Op::Create { ep: c });
             // the handshake itself may have needed k retries (the first k SYNs or SYN-ACKs are
             // lost): the later disconnect has its own, full budget
             let k = if r.chance(0.5) { r.range(1, 7) } else { 0 };
@@ -1157,11 +1241,11 @@ pub fn world_b_retry(property: &str, scenario: &str, seed: u64, run: u64, _thoro
                 }
             }
             // sometimes very early: less than 2 s after the SYN, while handshake timers are still queued
-            let t_b = k * 2_000_000 + if r.chance(0.4) { r.range(200_000, 1_500_000) } else { r.range(2_000_000, 6_000_000) };
+            let t_b = shift + k * 2_000_000 + if r.chance(0.4) { r.range(200_000, 1_500_000) } else { r.range(2_000_000, 6_000_000) };
             let mut b = clean_rule(latency);
             b.blackout = true;
             plan.push(t_b, 3, Op::Link { from: None, to: None, rule: b });
-            let t_call = t_b + if t_b < k * 2_000_000 + 2_000_000 { r.below(300_000) } else { r.below(3_000_000) };
+            let t_call = t_b + if t_b < shift + k * 2_000_000 + 2_000_000 { r.below(300_000) } else { r.below(3_000_000) };
             if r.chance(0.5) {
                 plan.push(t_call, 0x6000_0000, Op::DisconnectNow { ep: c, to: None });
             } else {
@@ -1169,7 +1253,7 @@ pub fn world_b_retry(property: &str, scenario: &str, seed: u64, run: u64, _thoro
             }
         }
     }
-    plan.push(1_000_000 + r.below(period_c), 3, Op::StepEvery { ep: c, period_us: period_c, until_us: horizon });
+    plan.push(shift + 1_000_000 + r.below(period_c), 3, Op::StepEvery { ep: c, period_us: period_c, until_us: horizon });
     plan.end_us = horizon;
     plan.sort();
     plan
